@@ -210,3 +210,111 @@ def shadeGen (mx : Bool) (r : Rounding) (box : Box) (parents : List Ind) (archiv
       archive := archive ++ (replaced mx parents q.1).map (·.genome) }
 
 end Engine
+
+/-! ## The SEA family: one pass of the variational-operator pipeline
+
+`pyhms/demes/single_pop_eas/sea.py`: `TournamentSelection`, `ArithmeticCrossover`,
+`GaussianMutation`, `UniformMutation`.  A population travelling through the pipeline is a
+list of rows `(genome, fitness?)`: `none` is NumPy's `nan` — "has to be evaluated"
+(`Population.update_genome` sets it on every row whose genome changed). -/
+namespace Engine
+open F64 Repair
+
+abbrev Row := Genome × Option Fit
+
+/-- `np.argmin` / `np.argmax` over the contestants' fitness: the first best contestant -/
+def firstBest (mx : Bool) : List Ind → Option Ind
+  | [] => none
+  | a :: l => match firstBest mx l with
+    | none => some a
+    | some b => if Select.better mx b a then some b else some a
+
+/-- `TournamentSelection`: row `i` becomes the first best of the contestants `idx[i]` -/
+def tournament (mx : Bool) (pop : List Ind) (idx : List (List Nat)) : Option (List Ind) :=
+  seqOpt (idx.map fun cs => (seqOpt (cs.map fun c => pop[c]?)).bind (firstBest mx))
+
+/-- `Population.update_genome` on one row: a changed genome loses its fitness -/
+def updateRow (old : Row) (g : Genome) : Row := if g = old.1 then old else (g, none)
+
+/-- one coordinate of `alpha * a + (1 - alpha) * b` -/
+def mixCoord (r : Rounding) (al a b : Rat) : Option Rat :=
+  (r (al * a)).bind fun x => (r (1 - al)).bind fun om => (r (om * b)).bind fun y => r (x + y)
+
+/-- one coordinate of `(1 - alpha) * a + alpha * b` -/
+def mixCoord' (r : Rounding) (al a b : Rat) : Option Rat :=
+  (r (1 - al)).bind fun om => (r (om * a)).bind fun x => (r (al * b)).bind fun y => r (x + y)
+
+/-- `ArithmeticCrossover` (with `evaluate_fitness = False`): consecutive pairs; a pair is mixed
+when its draw `u < probability` (then `alpha` is drawn), otherwise copied; an odd last row is copied.
+`draws` holds one `(u, alpha)` per pair (`alpha` unused when the pair is not mixed). -/
+def arithX (r : Rounding) (prob : Rat) : List Row → List (Rat × Rat) → Option (List Row)
+  | a :: b :: rest, (u, al) :: ds =>
+    if u < prob then
+      (seqOpt ((a.1.zip b.1).map fun p => mixCoord r al p.1 p.2)).bind fun ga =>
+      (seqOpt ((a.1.zip b.1).map fun p => mixCoord' r al p.1 p.2)).bind fun gb =>
+      (arithX r prob rest ds).map fun t => updateRow a ga :: updateRow b gb :: t
+    else (arithX r prob rest ds).map fun t => a :: b :: t
+  | [a], [] => some [a]
+  | [], [] => some []
+  | _, _ => none
+
+/-- one coordinate of `genomes + binary_mask * noise`: `u < probability` decides the mask -/
+def gaussCoord (r : Rounding) (prob : Rat) (g u noise : Rat) : Option Rat :=
+  if u < prob then r (g + noise) else some g
+
+/-- `GaussianMutation` on one row (before the evaluation): add the masked noise, repair
+toroidally, and forget the fitness when the genome changed -/
+def gaussRow (r : Rounding) (box : Box) (prob : Rat) (row : Row) (us noise : List Rat) : Option Row :=
+  (seqOpt ((row.1.zip (us.zip noise)).map fun p => gaussCoord r prob p.1 p.2.1 p.2.2)).bind fun moved =>
+  (repairRow .toroidal r box moved).map fun g => updateRow row g
+
+/-- `UniformMutation` on one row: a coordinate is replaced by its uniform draw when `u < probability` -/
+def uniformRow (prob : Rat) (row : Row) (us draws : List Rat) : Row :=
+  updateRow row ((row.1.zip (us.zip draws)).map fun p => if p.2.1 < prob then p.2.2 else p.1)
+
+/-- `Population.evaluate()`: rows without a fitness are evaluated in row order -/
+def evalRows : List Row → List Fit → Option (List Ind × List (Genome × Fit))
+  | [], [] => some ([], [])
+  | [], _ :: _ => none
+  | (g, some f) :: l, vs => (evalRows l vs).map fun q => (⟨g, f⟩ :: q.1, q.2)
+  | (g, none) :: l, vs => match vs with
+    | [] => none
+    | v :: vs => (evalRows l vs).map fun q => (⟨g, v⟩ :: q.1, (g, v) :: q.2)
+
+/-- the three shipped pipelines after the tournament -/
+inductive Pipe | sea | seax | ga
+deriving DecidableEq, Repr
+
+structure SeaDraws where
+  contestants : List (List Nat)
+  pairs : List (Rat × Rat)           -- crossover: `(u, alpha)` per pair (seax, ga)
+  mask : List (List Rat)             -- mutation: the uniform matrix behind the binary mask
+  noise : List (List Rat)            -- gaussian noise (sea, seax) or the uniform replacement draws (ga)
+  values : List Fit
+deriving Repr
+
+structure SeaGen where
+  offspring : List Ind
+  requests : List (Genome × Fit)
+deriving Repr
+
+def zip3With {α β γ δ : Type} (f : α → β → γ → δ) (a : List α) (b : List β) (c : List γ) : List δ :=
+  (a.zip (b.zip c)).map fun p => f p.1 p.2.1 p.2.2
+
+/-- one pass of `BaseSEA.run` up to (not including) `select_new_population` -/
+def seaOffspring (mx : Bool) (r : Rounding) (pipe : Pipe) (box : Box) (pX pM : Rat)
+    (parents : List Ind) (dr : SeaDraws) : Option SeaGen :=
+  if !(decide (dr.contestants.length = parents.length) && decide (dr.mask.length = parents.length) &&
+       decide (dr.noise.length = parents.length) && parents.all (fun p => p.genome.length == box.length) &&
+       dr.mask.all (fun m => m.length == box.length) && dr.noise.all (fun m => m.length == box.length)) then none else
+  (tournament mx parents dr.contestants).bind fun sel =>
+  let rows : List Row := sel.map fun i => (i.genome, some i.fit)
+  (match pipe with
+    | .sea => some rows
+    | .seax | .ga => arithX r pX rows dr.pairs).bind fun crossed =>
+  (match pipe with
+    | .ga => some (zip3With (uniformRow pM) crossed dr.mask dr.noise)
+    | .sea | .seax => seqOpt (zip3With (gaussRow r box pM) crossed dr.mask dr.noise)).bind fun mutated =>
+  (evalRows mutated dr.values).map fun (q : List Ind × List (Genome × Fit)) => ({ offspring := q.1, requests := q.2 } : SeaGen)
+
+end Engine
